@@ -60,7 +60,9 @@ func NewBufferSize(size int) *Buffer {
 // of the buffer. Note that the case where p shares the same backing
 // memory as b is optimized.
 func (b *Buffer) Write(p []byte) (n int, err error) {
-	if len(p)+b.n > cap(b.buf) {
+	// The size of the buffer is the length of its backing slice (see Available, Read, Peek),
+	// not its capacity: copy below stops at the length.
+	if len(p) > len(b.buf)-b.n {
 		return 0, fmt.Errorf("buffer too small")
 	}
 	inc := copy(b.buf[b.n:], p) // This is optimized if &b.buf[b.n:][0] == &p[0]
